@@ -1,6 +1,6 @@
 (** C09 Exit status truth.  Property theorems only; proofs in Life/Proofs.v.  The child process, signal delivery,
     waitpid and the wait-status encoding are a MODEL (Life/Model.v); [Inv] is the invariant of every state reachable
-    from a fresh spawn by isalive / wait / kill / terminate and by the child dying on its own. *)
+    from a fresh spawn by isalive / wait / kill / terminate / close and by the child dying on its own. *)
 From Coq Require Import ZArith List Bool.
 Import ListNotations.
 From PV Require Import Life.Model Life.Proofs.
@@ -18,9 +18,9 @@ Print Assumptions C09_decode_signal.
 
 (** the invariant holds initially and after every sequence of operations (every disposition of the child, every
     interleaving with the child exiting or being killed by itself) *)
-Theorem C09_invariant : forall ih ii st ops, Forall wf_op ops -> forallb no_close ops = true ->
+Theorem C09_invariant : forall ih ii st ops, Forall wf_op ops ->
   Inv (fold_left (fun w o => snd (lstep w o)) ops (world0 ih ii st)).
-Proof. intros. apply steps_inv; auto. apply world0_inv. Qed.
+Proof. intros. apply steps_inv_all; auto. apply world0_inv. Qed.
 Print Assumptions C09_invariant.
 
 (** whenever the object says terminated: the child is dead and reaped, status is its wait status, exactly one of
@@ -33,11 +33,20 @@ Proof. exact status_truth. Qed.
 Print Assumptions C09_status_truth.
 
 (** and the values never change afterwards *)
-Theorem C09_status_stable : forall w o, Inv w -> wf_op o -> no_close o = true -> s_terminated (sp w) = true ->
+Theorem C09_status_stable : forall w o, Inv w -> wf_op o -> s_terminated (sp w) = true ->
   let w' := snd (lstep w o) in
   s_terminated (sp w') = true /\ s_status (sp w') = s_status (sp w) /\ s_exit (sp w') = s_exit (sp w) /\ s_sig (sp w') = s_sig (sp w).
-Proof. exact status_stable. Qed.
+Proof. exact status_stable_all. Qed.
 Print Assumptions C09_status_stable.
+
+(** observing the death through close(): the object ends terminated, with the fields of the real fate (C09_status_truth applies) *)
+Theorem C09_close_observes : forall w, Inv w ->
+  match close w true with
+  | (RNone, w') => Inv w' /\ s_terminated (sp w') = true
+  | _ => False
+  end.
+Proof. intros w HI. pose proof (close_force w HI) as C. destruct (close w true) as [[| | | |] w']; try contradiction. split; apply C. Qed.
+Print Assumptions C09_close_observes.
 
 Example C09_example : let w := fold_left (fun w o => snd (lstep w o)) [OEnv (EExit 7); OIsalive] (world0 false false false) in
   (s_terminated (sp w), s_exit (sp w), s_sig (sp w), s_status (sp w)) = (true, Some 7, None, Some 1792).
